@@ -103,6 +103,9 @@ BUILT["C53"] = ("E2", "exploration", "deterministic simulation: real allow/block
 BUILT["C54"] = ("E2", "exploration", "deterministic simulation: real peer-store behaviour in a derived composite with real dial failures and connection establishments; bounded-capacity regime and exact reference-model regime",
   "Capacities never exceeded after any step; without eviction: contents equal the reference map (automatic removal never touches explicitly added addresses) and the PeerAddressAdded/Removed event sequence equals the reference's",
   E2_NOTE, "5/C52-54")
+BUILT["C03"] = ("E4", "exploration", "controlled thread scheduling: Miri's seeded scheduler (many-seeds, preemption rate) over the real process-wide AtomicUsize, ids obtained through the public DialOpts path from 2-4 threads",
+  "One Miri seed = one exactly repeatable interleaving of the allocating threads; all ids (before, during, after the threads) must be pairwise distinct; a failing seed is the replay",
+  "guard OFF (real atomic, no thread-local seam); Miri cannot cross FFI, so whole Swarms on several threads are not run under it - the allocation path is the same ConnectionId::next()", "5/C03")
 NOT_YET = {}
 
 def main():
